@@ -293,4 +293,58 @@ theorem scan_fuel_aux (f1 f2 : Nat) (s : Bytes) (h1 : s.length < f1) (h2 : s.len
           simp only []
           rw [ih f2 (s.drop line.length) (by simp; omega) (by simp; omega)]
 
+theorem filter_ne_length_lt (objs : List (Nat × LenObj)) (id : Nat) (p : Nat × LenObj)
+    (h : objs.find? (fun p => p.1 == id) = some p) :
+    (objs.filter (fun q => q.1 != id)).length < objs.length := by
+  induction objs with
+  | nil => simp at h
+  | cons a t ih =>
+    simp only [List.find?_cons] at h
+    by_cases ha : (a.1 == id) = true
+    · have : (a.1 != id) = false := by simp [bne, ha]
+      simp only [List.filter_cons, this, Bool.false_eq_true, if_false, List.length_cons]
+      have := List.length_filter_le (fun q : Nat × LenObj => q.1 != id) t
+      omega
+    · have ha' : (a.1 == id) = false := by simpa using ha
+      simp only [ha'] at h
+      have := ih h
+      by_cases hb : (a.1 != id) = true
+      · simp only [List.filter_cons, hb, if_true, List.length_cons]; omega
+      · simp only [List.filter_cons, hb, List.length_cons]; simp at *; omega
+
+theorem resolveLen_fuel (f1 f2 : Nat) (objs : List (Nat × LenObj)) (x : LenObj)
+    (h1 : objs.length < f1) (h2 : objs.length < f2) : resolveLen f1 objs x = resolveLen f2 objs x := by
+  induction f1 generalizing f2 objs x with
+  | zero => omega
+  | succ f1 ih =>
+    cases f2 with
+    | zero => omega
+    | succ f2 =>
+      cases x with
+      | int n => rfl
+      | other => rfl
+      | ref id =>
+        simp only [resolveLen]
+        cases hf : objs.find? (fun p => p.1 == id) with
+        | none => rfl
+        | some p =>
+          have := filter_ne_length_lt objs id p hf
+          exact ih f2 _ p.2 (by omega) (by omega)
+
+theorem lengthValue_indirect (objs : List (Nat × LenObj)) (id : Nat) (n : Int)
+    (h : objs.find? (fun p => p.1 == id) = some (id, .int n)) :
+    lengthValue objs (some (.ref id)) = some n := by
+  simp only [lengthValue, resolveLen, h]
+  cases hl : (objs.filter (fun q => q.1 != id)).length with
+  | zero => cases objs with
+    | nil => simp at h
+    | cons a t => simp [resolveLen]
+  | succ k => cases objs with
+    | nil => simp at h
+    | cons a t => simp [resolveLen]
+
+theorem lengthValue_missing_obj (objs : List (Nat × LenObj)) (id : Nat)
+    (h : objs.find? (fun p => p.1 == id) = none) : lengthValue objs (some (.ref id)) = some 0 := by
+  simp [lengthValue, resolveLen, h]
+
 end PdfVerif.Filters
